@@ -222,6 +222,33 @@ pub mod unit_hmc {
             && (n_collect > 0 ==> out.len() == tdim2(pre.positions).0)
             && forall |c: int, k: int| 0 <= c < tdim2(pre.positions).0 && 0 <= k < n_collect ==> (#[trigger] out[c][k]) == v2(h[n_discard + k + 1].positions)[c]
     }
+    /// C09 for HMC: two consecutive runs (the second without burn-in) satisfy, row-wise concatenated, the contract of one longer run
+    pub proof fn lemma_hmc_two_runs_are_one_longer_run<B: AutodiffBackend, G: BatchedGradientTarget<B>>(a: HMC<B, G>, b: HMC<B, G>, c: HMC<B, G>, o1: C3, o2: C3, n1: int, d: int, n2: int)
+        requires n1 >= 1, d >= 0, n2 >= 1, hmc_run_post::<B, G>(a, b, o1, n1, d), hmc_run_post::<B, G>(b, c, o2, n2, 0), tdim2(b.positions).0 == tdim2(a.positions).0,
+            forall |r: int| 0 <= r < tdim2(a.positions).0 ==> (#[trigger] o1[r]).len() == n1 && o2[r].len() == n2,
+        ensures hmc_run_post::<B, G>(a, c, Seq::new(o1.len(), |r: int| o1[r] + o2[r]), n1 + n2, d)      // [C09.hmc_two_consecutive_runs_equal_one_longer_run]
+    {
+        let nc = tdim2(a.positions).0;
+        let h1 = choose |h: Seq<HMC<B, G>>| #[trigger] hmc_hist_ok::<B, G>(h, a, b, n1 + d) && (n1 > 0 ==> o1.len() == nc)
+            && forall |cc: int, k: int| 0 <= cc < nc && 0 <= k < n1 ==> (#[trigger] o1[cc][k]) == v2(h[d + k + 1].positions)[cc];
+        let h2 = choose |h: Seq<HMC<B, G>>| #[trigger] hmc_hist_ok::<B, G>(h, b, c, n2 + 0) && (n2 > 0 ==> o2.len() == tdim2(b.positions).0)
+            && forall |cc: int, k: int| 0 <= cc < tdim2(b.positions).0 && 0 <= k < n2 ==> (#[trigger] o2[cc][k]) == v2(h[0 + k + 1].positions)[cc];
+        let h = h1 + h2.subrange(1, n2 + 1);
+        let t1 = n1 + d;
+        assert(h.len() == t1 + n2 + 1);
+        assert forall |i: int| 0 <= i < t1 + n2 implies #[trigger] step_post::<B, G>(h[i], h[i + 1]) by {
+            if i < t1 { assert(h[i] == h1[i] && h[i + 1] == h1[i + 1]); }
+            else if i == t1 { assert(h[i] == h1[t1] && h1[t1] == b && h2[0] == b && h[i + 1] == h2[1]); assert(step_post::<B, G>(h2[0int], h2[0int + 1])); }
+            else { let j = i - t1; assert(h[i] == h2[j] && h[i + 1] == h2[j + 1]); assert(step_post::<B, G>(h2[j], h2[j + 1])); }
+        }
+        assert(h[0] == a && h[t1 + n2] == h2[n2]);
+        assert(hmc_hist_ok::<B, G>(h, a, c, (n1 + n2) + d));
+        let o = Seq::new(o1.len(), |r: int| o1[r] + o2[r]);
+        assert forall |cc: int, k: int| 0 <= cc < nc && 0 <= k < n1 + n2 implies (#[trigger] o[cc][k]) == v2(h[d + k + 1].positions)[cc] by {
+            if k < n1 { assert(o[cc][k] == o1[cc][k]); assert(h[d + k + 1] == h1[d + k + 1]); }
+            else { let k2 = k - n1; assert(o[cc][k] == o2[cc][k2]); assert(h[d + k + 1] == h2[k2 + 1]); }
+        }
+    }
     pub proof fn lemma_row_major_index(i: int, j: int, n: int, d: int)
         requires 0 <= i < n, 0 <= j < d
         ensures 0 <= i * d + j < n * d
